@@ -28,6 +28,7 @@ type Env struct {
 	selfName    string
 	selfHeap    []string
 	inOld       bool
+	preEnv      *Env // loop invariants: environment of the state on loop entry, for pre(e)
 }
 
 func (e *Env) child() *Env {
@@ -382,6 +383,10 @@ func (e *Env) selectField(v Val, name string) (Val, error) {
 	}
 	for _, g := range u.ghostFields(base) {
 		if g.name == name {
+			if _, isIface := v.Ty.Underlying().(*types.Interface); isIface {
+				comp, _ := u.fieldComp(base, name)
+				return Val{T: fmt.Sprintf("(select %s (i.val %s))", e.heap(comp), v.T), Ty: g.ty}, nil
+			}
 			if _, isPtr := v.Ty.Underlying().(*types.Pointer); isPtr {
 				comp, _ := u.fieldComp(base, name)
 				return Val{T: fmt.Sprintf("(select %s %s)", e.heap(comp), v.T), Ty: g.ty}, nil
@@ -460,6 +465,9 @@ func (e *Env) evalIndex(t *EIndex) (Val, error) {
 	i, err := e.Eval(t.I)
 	if err != nil {
 		return Val{}, err
+	}
+	if gm := u.eng.isGhostMap(v.Ty); gm != nil {
+		return Val{T: fmt.Sprintf("(select %s %s)", v.T, e.coerce(i, gm.Key()).T), Ty: gm.Elem()}, nil
 	}
 	switch tt := v.Ty.Underlying().(type) {
 	case *types.Slice:
@@ -552,7 +560,7 @@ func (e *Env) evalBinary(t *EBinary) (Val, error) {
 	case "-":
 		return Val{T: fmt.Sprintf("(- %s %s)", a.T, b.T), Ty: mathInt}, nil
 	case "*":
-		return Val{T: fmt.Sprintf("(* %s %s)", a.T, b.T), Ty: mathInt}, nil
+		return Val{T: mulTerm(a.T, b.T), Ty: mathInt}, nil
 	case "/":
 		return Val{T: divTerm(a.T, b.T), Ty: mathInt}, nil
 	case "%":
@@ -617,6 +625,13 @@ func (e *Env) evalCall(t *ECall) (Val, error) {
 				return Val{}, e.errf("old() not available in this context")
 			}
 			return c.Eval(t.Args[0])
+		case "pre":
+			if e.preEnv == nil || len(t.Args) != 1 {
+				return Val{}, e.errf("pre() is only available in loop invariants")
+			}
+			pe := *e.preEnv
+			pe.bound = e.bound
+			return pe.Eval(t.Args[0])
 		case "len", "cap":
 			v, err := e.Eval(t.Args[0])
 			if err != nil {
@@ -734,6 +749,24 @@ func (e *Env) evalCall(t *ECall) (Val, error) {
 				return Val{T: fmt.Sprintf("(tdiv %s %s)", a.T, b.T), Ty: mathInt}, nil
 			}
 			return Val{T: fmt.Sprintf("(tmod %s %s)", a.T, b.T), Ty: mathInt}, nil
+		case "upd":
+			m, err := e.Eval(t.Args[0])
+			if err != nil {
+				return Val{}, err
+			}
+			k, err := e.Eval(t.Args[1])
+			if err != nil {
+				return Val{}, err
+			}
+			v, err := e.Eval(t.Args[2])
+			if err != nil {
+				return Val{}, err
+			}
+			gm := u.eng.isGhostMap(m.Ty)
+			if gm == nil {
+				return Val{}, e.errf("upd() on non-gmap")
+			}
+			return Val{T: fmt.Sprintf("(store %s %s %s)", m.T, e.coerce(k, gm.Key()).T, e.coerce(v, gm.Elem()).T), Ty: m.Ty}, nil
 		case "pow2":
 			v, err := e.Eval(t.Args[0])
 			if err != nil {
@@ -1102,6 +1135,16 @@ func (u *Unit) resolveType(te *TypeExpr, pkg *types.Package) (types.Type, error)
 			return nil, err
 		}
 		return types.NewArray(el, int64(n)), nil
+	case "gmap":
+		k, err := u.resolveType(te.Key, pkg)
+		if err != nil {
+			return nil, err
+		}
+		v, err := u.resolveType(te.Elem, pkg)
+		if err != nil {
+			return nil, err
+		}
+		return u.eng.ghostMapType(k, v), nil
 	case "map":
 		k, err := u.resolveType(te.Key, pkg)
 		if err != nil {
